@@ -713,8 +713,8 @@ pub fn pair_sweep(model: &CfModel, lefts: &[St], rights: &[St], threads: usize) 
 /// oracle without a key: for every start state, every operation that FAILS there (every insert, every union
 /// template, every RNG outcome), and every continuation of two further operations (insert / delete / union / clear
 /// of everything), the filter that went through the failed operation must behave exactly like the one that did
-/// not: same results of both continuation steps, same final observations, under the all-first (thorough: and all-last) RNG
-/// answer policies; in the quick tier the last step ranges over inserts and unions only. Returns (failing operations, continuations compared, violations).
+/// not: same results of both continuation steps, same final observations, under the all-first RNG
+/// answer policy; in the quick tier the last step ranges over inserts and unions only. Returns (failing operations, continuations compared, violations).
 pub fn failure_continuations(model: &CfModel, starts: &[St], threads: usize, full: bool) -> (u64, u64, Vec<Viol>) {
     let cfg = &model.cfg;
     let n = cfg.n_elements();
@@ -725,7 +725,7 @@ pub fn failure_continuations(model: &CfModel, starts: &[St], threads: usize, ful
     let first_ops: Vec<Op> = all_ops.iter().copied().filter(|o| matches!(o, Op::Insert(_) | Op::Union(_))).collect();
     // quick: the last step is an operation that can fail again (insert / union), one RNG policy
     let last_ops: Vec<Op> = if full { all_ops.clone() } else { first_ops.clone() };
-    let tails: Vec<Tail> = if full { vec![Tail::Zero, Tail::Max] } else { vec![Tail::Zero] };
+    let tails: Vec<Tail> = vec![Tail::Zero];
     let apply = |f: &mut Cf, op: &Op| -> u8 {
         let r = mccore::panics::catch(|| match *op {
             Op::Insert(e) => match f.insert(&cfg.key_of(e)) { Ok(true) => 0u8, Ok(false) => 1, Err(_) => 2 },
